@@ -17,6 +17,8 @@ SHAPES = {  # name -> (n, edges as (parent, child) index pairs)
     "two_comp": (4, [(0, 1), (2, 3)]),
     "family3": (4, [(0, 3), (1, 3), (2, 3)]),
     "fork4": (4, [(0, 1), (0, 2), (0, 3)]),
+    # two children of the same THREE parents (declared in independently shuffled orders: factor pairs sharing 3 variables in rotated order)
+    "fam3two": (5, [(0, 3), (1, 3), (2, 3), (0, 4), (1, 4), (2, 4)]),
     "confmed": (4, [(0, 1), (0, 2), (1, 2), (2, 3)]),          # A->X, A->M, X->M, M->Y : confounded mediator
     "frontdoor": (4, [(0, 1), (0, 3), (1, 2), (2, 3)]),        # U->X, U->Y, X->M, M->Y
     "mshape": (5, [(0, 2), (1, 2), (1, 3), (4, 3)]),
